@@ -85,7 +85,8 @@ def judge(chk, sc, o):
                 chk.violation('fresh_without_keep_alive', case, {'op': opi, 'reused': sorted(toks & prev_tokens)}, 'without keep_alive every call gets fresh instances',
                               input_class='fresh_without_keep_alive')
         if ka and not restarted:
-            exits = [c for c in mine if c[1] == 'exit']
+            workers_of_this_call = {c[3] for c in mine if c[1] == 'task'}
+            exits = [c for c in mine if c[1] == 'exit' and c[3] in workers_of_this_call]      # instances retired by a settings change may exit
             if exits:
                 chk.violation('exit_deferred', case, {'op': opi, 'exit_calls': exits[:3]}, 'worker_exit is deferred until stop_and_join / pool exit under keep_alive',
                               input_class='exit_deferred')
